@@ -1045,8 +1045,12 @@ class PackageGenerator:
                         '    def __init__(self, cv=None, depth=3) -> None:\n        self.best_ = {}\n')
         # ... and float literals beyond the range of a double (mypy evaluates them to inf / -inf)
         me_.body.append("def bounds(lower: float = -1e400, upper: float = 1e999, eps: float = 1e-07) -> float:\n    ...\n")
-        me_.all_classes += ["Registry", "Version", "Tuned"]
-        me_.public_classes += ["Registry", "Version", "Tuned"]
+        # ... and numpydoc default clauses in the spellings found in the wild: the text after `default` is not always an expression
+        from . import probes as _probes
+
+        me_.body.append(_probes.PROBES["numpydoc_default_spellings"])
+        me_.all_classes += ["Registry", "Version", "Tuned", "Solver"]
+        me_.public_classes += ["Registry", "Version", "Tuned", "Solver"]
 
         # segment names whose underscores are followed by digits only (conv_3, layer_1/pool_2): the converted path differs
         # from the Python path although no "_<letter>" occurs in it (added last, no effect on the random stream above)
